@@ -1203,6 +1203,12 @@ class Run:
             return z3.BoolVal(True)
         if isinstance(v, PyList):
             return z3.BoolVal(bool(v.items))
+        if isinstance(v, SVal):
+            return z3.Function('truthy', sym.ValS, z3.BoolSort())(v.t)     # opaque values: truthiness is a predicate
+        if isinstance(v, SKey):
+            return z3.Function('truthy_key', sym.KeyS, z3.BoolSort())(v.t)
+        if isinstance(v, SMaybe):
+            return z3.And(v.cond, self.truth(v.inner))
         raise Unsupported(f"truth value of {v}")
 
     def ex_BinOp(self, e):
@@ -1767,6 +1773,14 @@ class LoopCtx:
 # ------------------------------------------------------------------------------------------------
 # helper values that stay concrete
 # ------------------------------------------------------------------------------------------------
+class SMaybe(SV):
+    """`d.get(k)` inside a comprehension: the element when present, None otherwise"""
+
+    def __init__(self, cond, inner):
+        self.cond, self.inner = cond, inner
+        self.typ = None
+
+
 class PyList(SV):
     """a concrete python list of symbolic values (literal lists, e.g. [feature])"""
 
